@@ -353,6 +353,11 @@ class CallMixin:
                 names[p['name']] = (a, p['type'])
             rnames = [r['name'] for r in fn['results']]
             rtypes = [r['type'] for r in fn['results']]
+            from .baseline import renames
+            self._raliases = renames(fn)
+            for old_, new_ in self._raliases.items():
+                if old_ not in names and new_ in names:
+                    names[old_] = names[new_]
             # captured variables of a literal: resolved through the caller's cell names
         else:
             argn = spec.args or ['a%d' % i for i in range(len(args))]
@@ -468,6 +473,10 @@ class CallMixin:
             if nm:
                 rn[nm] = (v, t)
             rn['r%d' % i] = (v, t)
+        for old_, new_ in (getattr(self, '_raliases', None) or {}).items():
+            if new_ in rn and old_ not in rn:
+                rn[old_] = rn[new_]
+        self._raliases = None
         if len(vals) == 1:
             rn.setdefault('result', (vals[0], rtypes[0]))
         if vals and rtypes[-1] == 'error':
@@ -890,6 +899,11 @@ class CallMixin:
                 cid = ('ghost', g)
                 st.cells[cid] = T.V(T.fresh_name('G_' + g), SORTS.get(sort, T.INT))
                 self.ghost_cells[g] = (cid, sort)
+        from .baseline import renames
+        for old_, new_ in renames(fn).items():
+            if old_ not in names and new_ in names:
+                names[old_] = names[new_]          # a renamed parameter / named result answers to its old name too
+                self.renamed_used.add('%s: %s -> %s' % (fn['name'].rsplit('/', 1)[-1], old_, new_))
         self.base_names = names
         self.entry_state = st.copy()
         ctx0 = {'fn': fn, 'frame': frame, 'cfg': self.cfg(fn), 'spec': spec, 'freevars': {p['name']: b for p, b in zip(fn['freevars'], bindings)},
